@@ -10,6 +10,9 @@ package main
 
 import (
 	"bytes"
+	_ "image/gif" // AddPicture needs the caller to register the decoders
+	_ "image/jpeg"
+	_ "image/png"
 	"encoding/hex"
 	"fmt"
 	"os"
@@ -17,6 +20,9 @@ import (
 	"strconv"
 	"strings"
 	"time"
+
+	_ "golang.org/x/image/bmp"
+	_ "golang.org/x/image/tiff"
 
 	xl "github.com/xuri/excelize/v2"
 )
@@ -704,7 +710,7 @@ func c05Graphic(v int) *xl.GraphicOptions {
 	case 1:
 		g.Hyperlink, g.HyperlinkType = "https://example.com/?a=1&b=<2>", "External"
 	case 2:
-		g.Hyperlink, g.HyperlinkType = "Sheet1!A1", "Location"
+		g.Hyperlink, g.HyperlinkType = "#Sheet1!A1", "Location" // the documented form: location targets start with #
 	case 3:
 		g.AutoFit, g.Positioning = true, "oneCell"
 	case 4:
